@@ -155,7 +155,7 @@ func checkMain(args []string) int {
 	var results []*sym.Result
 	var inconcl []string
 	for _, e := range entries {
-		r := p.Run(e, sym.Options{Workers: *workers, TlimitMs: tl})
+		r := p.Run(e, sym.Options{Workers: *workers, TlimitMs: tl, SampleEvery: 41, SampleOffset: seed})
 		results = append(results, r)
 		for _, ic := range r.Inconclusive {
 			inconcl = append(inconcl, e+": "+ic)
@@ -252,6 +252,12 @@ func checkMain(args []string) int {
 			}
 		}
 	}
+	// differential pass: a seed-dependent sample of the queries is decided again by z3
+	diff := differential(results, map[string]int{"quick": 48, "thorough": 160}[*tier])
+	if diff["disagree"] > 0 {
+		inconcl = append(inconcl, fmt.Sprintf("differential: z3 disagrees with cvc5 on %d sampled queries (scripts kept under evidence/replay/diff-*.smt2)", diff["disagree"]))
+	}
+	diffStats = diff
 	// known findings
 	hit := map[string]bool{}
 	for _, r := range results {
@@ -277,6 +283,57 @@ func checkMain(args []string) int {
 	}
 	fmt.Printf("OK property=%s tier=%s entries=%d wall=%.1fs\n", id, *tier, len(entries), wall)
 	return 0
+}
+
+var diffStats map[string]int
+
+// differential runs up to max sampled queries through z3 4.8.12 (10 s cap each).
+func differential(results []*sym.Result, max int) map[string]int {
+	var qs []sym.SampledQuery
+	for _, r := range results {
+		qs = append(qs, r.Samples2...)
+	}
+	// spread the budget over the entries: take every k-th
+	if len(qs) > max {
+		step := float64(len(qs)) / float64(max)
+		var pick []sym.SampledQuery
+		for i := 0; i < max; i++ {
+			pick = append(pick, qs[int(float64(i)*step)])
+		}
+		qs = pick
+	}
+	stats := map[string]int{"sampled": len(qs), "agree": 0, "unknown": 0, "disagree": 0}
+	type res struct {
+		i   int
+		out string
+	}
+	ch := make(chan res, len(qs))
+	sem := make(chan struct{}, 16)
+	for i, q := range qs {
+		go func(i int, q sym.SampledQuery) {
+			sem <- struct{}{}
+			defer func() { <-sem }()
+			cmd := exec.Command("z3", "-in", "-T:10")
+			cmd.Stdin = strings.NewReader(q.Script)
+			out, _ := cmd.Output()
+			ch <- res{i, strings.TrimSpace(string(out))}
+		}(i, q)
+	}
+	for range qs {
+		r := <-ch
+		first := strings.SplitN(r.out, "\n", 2)[0]
+		want := qs[r.i].Result.String()
+		switch {
+		case first == want:
+			stats["agree"]++
+		case first == "sat" || first == "unsat":
+			stats["disagree"]++
+			os.WriteFile(filepath.Join(verifDir, "evidence", "replay", fmt.Sprintf("diff-%d.smt2", r.i)), []byte("; cvc5: "+want+" z3: "+first+"\n"+qs[r.i].Script), 0o644)
+		default:
+			stats["unknown"]++
+		}
+	}
+	return stats
 }
 
 func sanitize(s string) string {
@@ -444,6 +501,7 @@ func writeEvidence(id, tier string, seed int, meta propMeta, results []*sym.Resu
 		"source_hashes":                 hashes,
 		"bounds":                        meta.Bounds,
 		"solver":                        solver,
+		"differential":                  map[string]interface{}{"solver": "z3 4.8.12 (-T:10 per query)", "rule": "every 41st query of each worker (offset by VERIF_SEED), capped per tier; disagreement makes the run inconclusive", "stats": diffStats},
 		"entries":                       perEntry,
 		"notes":                         uniq(notes),
 		"not_explored":                  uniq(skipped),
